@@ -279,12 +279,16 @@ def add_scheme_S(spec, event='e', send_subset=False, eventless_twin=False, count
     return spec
 
 
-def add_scheme_P(spec, prios=(0, 1), events=(None, 'e', 'f')):
-    """probe scheme: internal transitions per (state, event class, priority) + navigation."""
+def add_scheme_P(spec, prios=(0, 1), events=(None, 'e', 'f'), skip=None):
+    """probe scheme: internal transitions per (state, event class, priority) + navigation.
+    skip = 0 | 1: states whose pre-order index has that parity carry no probe at all (chains in which an
+    intermediate state has no transition for the trigger)"""
     T = Tree(spec)
     trans = spec['transitions']
-    for s in T.order:
+    for idx, s in enumerate(T.order):
         if T.kind(s) not in TRANSITION_KINDS:
+            continue
+        if skip is not None and idx % 2 == skip:
             continue
         for ev in events:
             for pr in prios:
